@@ -159,6 +159,16 @@ def fs_ops(eng, r, args=None):
             name = e.callee.split("::")[-1]
             if name in ("try_create_folder", "create_dir_all", "create_dir", "set_permissions"):
                 continue          # creating a (parent) directory changes no file of the property
+            if e.callee.endswith("OpenOptions::open"):
+                # the options decide what the open does to an existing file: without truncate / create_new the old content stays and is
+                # overwritten from the start (a shorter new content leaves the old tail)
+                flags = {x.callee.split("::")[-1] for x in r.events[:r.events.index(e)] if x.kind == "call" and re.search(r"OpenOptions::(write|append|truncate|create|create_new|read)$", x.callee)
+                         and not (len(x.rargs) > 1 and isinstance(x.rargs[1], Scalar) and z3.is_false(z3.simplify(x.rargs[1].e)))}
+                if not ({"write", "append", "create", "create_new", "truncate"} & flags):
+                    continue          # opened for reading
+                name = "create" if ({"truncate", "create_new"} & flags) else ("append" if "append" in flags else "overwrite_in_place")
+                out.append((name, [pf.norm(e.rargs[1])], e))
+                continue
             n = 2 if name in ("copy", "rename", "hard_link") else 1
             out.append((name, [pf.norm(a) for a in e.rargs[:n]], e))
     return out
@@ -177,8 +187,12 @@ def unit_ops(rep, ctx, path, argnames, inline=None, label=None):
         for i, nm in enumerate(argnames):
             if i < len(r.args) and isinstance(origin(r.args[i]), Sym):
                 args[origin(r.args[i])] = nm
-        ops = [(n, a) for (n, a, _e) in fs_ops(eng, r, args) if MUTATING.search("fs::" + n) or n in ("copy", "remove_file", "remove_dir_all")]
+        ops = [(n, a) for (n, a, _e) in fs_ops(eng, r, args) if MUTATING.search("fs::" + n) or n in ("copy", "remove_file", "remove_dir_all", "create", "append", "overwrite_in_place")]
         lists.append((ops, r))
+        for n_, a_ in ops:
+            if n_ in ("overwrite_in_place", "append"):
+                rep.add(Query("%s: a file is replaced as a whole (copy / create+truncate), never written over an existing one" % (label or path), "violated",
+                              "%s(%s): the destination is opened for writing without truncate - a shorter new content keeps the old tail" % (n_, a_), 0, "mirsym", key="C17.unit.whole-file:" + (label or path), reproduced=None))
     full = max(lists, key=lambda x: len(x[0]))[0] if lists else []
     # a path may stop early only through an error return (`?`): its list is a prefix of the full list
     ok = all(l == full[:len(l)] for l, _r in lists)
@@ -498,7 +512,10 @@ def check_commands(rep, cmds):
     for seq, _r in cmds["restore-no-backup"]:
         ok = not [s for s in seq if s[0] in ("fs", "svc")]
         ex = [s for s in seq if s[0] == "exists"]
-        okx = bool(ex) and ex[0][1].startswith(BACKUP_ROOT or "\0")
+        # the guard must ask for something the backup step writes (the backed-up executable restore is going to need), not merely for a
+        # folder that an interrupted or empty backup leaves behind as well
+        backup_targets = {s_[1][1][1] for bseq, _b in cmds.get("backup", []) for s_ in bseq if s_[0] == "fs" and s_[1][0] == "copy" and len(s_[1][1]) > 1}
+        okx = bool(ex) and ex[0][1].startswith(BACKUP_ROOT or "\0") and (not backup_targets or ex[0][1] in backup_targets)
         rep.add(Query("restore without a backup (no executable in the backup folder): no file or service operation", "holds" if ok and okx else "violated", "%s" % [s[:2] for s in seq], 0, "mirsym",
                       key="C17.restore-no-backup", reproduced=None))
     # purge removes only the backup
